@@ -10,6 +10,11 @@ CLAIMED = {
    "Every state reachable by <= n commits from the alphabet, any interleaving of the five pipeline-stage events and <= x clean reopen events is visited once; after every event every key of the universe is read (get, get_size) and compared with a BTreeMap model. Configurations: hashed/uniform x preimage x compression, 1 and 2 columns.",
    "Bounds (n, x, alphabet) per scenario in the evidence; stepping mode without real threads; merging of states by (digest, file bytes, model, pipeline model).",
    "DESIGN.md §3 E1, §4 C01"),
+ "C04": ("seqmc", "model_checking",
+   "explicit-state breadth-first search over the real Db incl. iterator calls as events, position-semantics oracle on a BTreeMap model, iterator internal state part of state identity",
+   "Every state reachable by <= n commits, any interleaving of pipeline-stage events, and iterator call sequences (open, seek(k) present/absent, seek_to_first, seek_to_last, next, prev) of bounded length with commits/stage events interleaved while the iterator is open; every iterator answer, every point read and a full forward and backward scan after every event are compared with the model. Structure scenarios: macro-transactions over 100 keys and single-key edits from prebuilt depth-2/3 trees with scans after every drain and reopen.",
+   "Bounds per scenario in the evidence; on-disk tree shape (sorted, uniform depth) is checked through scans here and by the file parser of C14.",
+   "DESIGN.md §3 E1, §4 C04"),
 }
 
 NOT_YET = {}
